@@ -54,8 +54,25 @@ inline bool drop_S(Rng& r, uint64_t idx)
   uint32_t const policy = static_cast<uint32_t>(r.below(4)); // 0 never poll during the phase, 1 after every k, 2 only when a drop was seen, 3 often
   uint32_t const k = static_cast<uint32_t>(r.range(2, 20));
   uint32_t const steps = static_cast<uint32_t>(r.range(30, 300));
-  uint64_t drops = 0, oversize = 0, flush_under_flood = 0, exits_with_drops = 0;
+  uint64_t drops = 0, oversize = 0, flush_under_flood = 0, exits_with_drops = 0, exits_in_scan_window = 0;
   bool saw_drop = false;
+  // inside the backend's reclaim of exited threads' contexts, right before it scans for removable ones: a thread
+  // whose queue is empty has a statement refused (one that can never fit) and exits at once - its drop count is final
+  // only now and must still be reported
+  uint32_t scan_inject_budget = 3;
+  g_inject = [&](int p, void const*, uint64_t)
+  {
+    if (p != qv::BW_CLEANUP_CTX_SCAN || !scan_inject_budget || !r.chance(1, 2)) return;
+    auto idle = run.idle_workers();
+    if (idle.size() < 2) return;
+    --scan_inject_budget;
+    SW& v = *idle[r.below(idle.size())];
+    SW* vp = &v;
+    run.note('i', p);
+    run.run_on(v, [wp, vp] { bool threw; log_maybe_throw(vp->issues, wp->loggers[0].lg, 0, vp->tid, vp->seq++, static_cast<uint32_t>(kMaxPayload + 60), threw); }, "log-oversize");
+    run.exit_worker(v);
+    ++exits_in_scan_window;
+  };
   for (uint32_t st = 0; st < steps && !run.failed; ++st)
   {
     if ((policy == 1 && st % k == 0) || (policy == 2 && saw_drop) || (policy == 3 && r.chance(1, 3)))
@@ -129,6 +146,7 @@ inline bool drop_S(Rng& r, uint64_t idx)
     }
   }
   bool ok = !run.failed && run.drain("drop_S");
+  g_inject = nullptr;
   // ---- epilogue: backtrace control requests issued while the caller's queue is FULL must take effect (they are
   // retried until they fit): init_backtrace(3), two backtrace statements, flush_backtrace() -> exactly the accepted
   // backtrace statements are replayed on the (separate) sink of that logger
@@ -227,6 +245,7 @@ inline bool drop_S(Rng& r, uint64_t idx)
   stat_add("drop_oversize_rejections", static_cast<long long>(oversize));
   stat_add("drop_control_requests_under_flood", static_cast<long long>(flush_under_flood));
   stat_add("drop_threads_exited_with_pending_drop_count", static_cast<long long>(exits_with_drops));
+  stat_add("drop_threads_dropping_and_exiting_inside_the_reclaim_scan_window", static_cast<long long>(exits_in_scan_window));
   if (drops) stat_sig("drop_sigs", std::to_string(run.sig_hash));
   for (Lg* v : victims) Fe::remove_logger(v);
   w.teardown_loggers();
